@@ -303,7 +303,7 @@ def check_S(S, p):
             if r.rc != base.rc or r.out != base.out:
                 S.viol("C18:chunk:S:%s" % fmt, "[S create %s via %s, first read() returned %d bytes, later %s] rc %s stdout %r stderr %r (baseline %r)" % (
                     fmt, via, got_first, rest or "all", r.rc, r.out[:100], r.err[:200], base.out[:100]),
-                    {"level": "S", "input_b64": E.b64(data), "env": env, "via": via})
+                    {"level": "S", "input_b64": E.b64(data), "env": env, "via": via, "replay": __import__("vf.replay", fromlist=["x"]).same(base, r)})
             S.case(key="%s|S|%d|%s" % (digest(data), first, via), nontrivial=first < n)
     # read faults at a strided set of offsets
     for off in range(0, n, max(1, stride // 2)):
@@ -323,7 +323,8 @@ def check_S(S, p):
             S.observe("S_fault_offsets_%s" % fmt, off)
             if r.rc == 0 or r.out:
                 S.viol("C18:read-fault:S:%s" % fmt, "[S create %s via %s] read() failed with errno %s at offset %d but the run exited %s with stdout %r" % (
-                    fmt, via, env["FAILIO_READ_ERRNO"], off, r.rc, r.out[:100]), {"level": "S", "input_b64": E.b64(data), "env": env, "via": via})
+                    fmt, via, env["FAILIO_READ_ERRNO"], off, r.rc, r.out[:100]), {"level": "S", "input_b64": E.b64(data), "env": env, "via": via,
+                                                                                     "replay": __import__("vf.replay", fromlist=["x"]).exit_status(r, True)})
         elif r.rc != base.rc or r.out != base.out:
             S.viol("C18:fault-undelivered-differs", "[S create %s] no fault delivered but output differs" % fmt, {"level": "S", "input_b64": E.b64(data), "env": env})
         S.case(key="%s|Sf|%d" % (digest(data), off), nontrivial=delivered)
@@ -358,7 +359,8 @@ def check_S(S, p):
                 S.observe("S_write_fault_offsets", off)
                 if r.rc == 0:
                     S.viol("C18:write-fault:S:%s" % sub[0], "[S %r] write() to stdout failed with errno %s at offset %d of %d but the run exited 0" % (
-                        sub, [28, 5, 32][off % 3], off, nout), {"level": "S", "argv": sub, "input_b64": E.b64(spec_in), "fail_at": off})
+                        sub, [28, 5, 32][off % 3], off, nout), {"level": "S", "argv": sub, "input_b64": E.b64(spec_in), "fail_at": off,
+                                                                "replay": __import__("vf.replay", fromlist=["x"]).exit_status(r, True)})
             S.case(key="%s|Sw|%s|%d" % (digest(spec_in), sub, off), nontrivial=delivered)
 
 
@@ -376,7 +378,7 @@ def check_S_output_path(S, p):
             S.count("S_output_path_faults")
             if r.rc == 0:
                 S.viol("C18:write-fault:S:output-path", "[S %r -o /dev/full, %d values] every write() fails with ENOSPC but the run exited 0" % (sub, len(vals)),
-                       {"level": "S", "argv": r.argv, "input_b64": E.b64(spec_in)})
+                       {"level": "S", "argv": r.argv, "input_b64": E.b64(spec_in), "replay": __import__("vf.replay", fromlist=["x"]).exit_status(r, True)})
             S.case(key="%s|devfull|%s" % (digest(spec_in), sub), nontrivial=True)
             out = os.path.join(scratch_dir(), "out-%d-%d.sfs" % (os.getpid(), k))
             full = cli.sfs(sub + ["-o", out], stdin=spec_in)
